@@ -164,6 +164,28 @@ pub fn run(ctx: &Ctx) -> i32 {
             }
         });
     }
+    // 1b. strings with high bytes (upper shift inside C40/Text, Base256, ASCII upper shift)
+    {
+        let alpha: Vec<u8> = vec![0x80, 0x9F, b'A', b'a', 0xE1, 0xFF, 0x1E];
+        let fam = Family::Over { alpha, min: 1, max: ctx.tier.pick(4, 5) };
+        let n = fam.size();
+        let per = 8u64;
+        ctx.par((n + per - 1) / per, |c, w| {
+            w.label(|| format!("scripts for high-byte strings chunk {}", c));
+            let mut s = Vec::new();
+            for i in c * per..((c + 1) * per).min(n) {
+                fam.get(i, &mut s);
+                let mut all: Vec<Vec<Seg>> = Vec::new();
+                let mut st = Stats::default();
+                scripts(&s, 0, &[], if s.len() <= 3 { 9 } else { 2 }, &mut st, &mut |segs, _| all.push(segs.to_vec()));
+                w.stats.add("script_nodes", st.counters.get("script_nodes").copied().unwrap_or(0));
+                w.stats.add("script_edges", st.counters.get("script_edges").copied().unwrap_or(0));
+                for segs in &all {
+                    replay_script(&[], &s, segs, &caps, 4, w);
+                }
+            }
+        });
+    }
     // 2. shifted tails: a filler run in each mode parks the position at every residue, then every
     //    tail over sigma8 of length <= 2 with all scripts
     let fillers: Vec<(u8, Mode, bool)> = vec![
@@ -239,7 +261,7 @@ pub fn run(ctx: &Ctx) -> i32 {
         "distinct_nontrivial": ctx.counter("nontrivial"),
         "rule": "states = (string, script prefix) nodes of the script tree of the reference encoder R6, transitions = script extensions (mode x run length x termination form); every complete script that R6 can legally realise \
 (strict tier: forms spelled out by ISO/IEC 16022) is materialised for up to 5 admissible real symbol capacities, decoded by R5 (model self-consistency, engine error otherwise) and replayed against data::decode_data and decode_str. \
-Programs: all strings over an 8-letter class alphabet up to the tier's length with all scripts (longer strings with a bounded number of latches); a filler run of 1..kmax characters in each mode (with and without unlatch) followed by every tail of length <= 2 (3) with all scripts; \
+Programs: all strings over an 8-letter class alphabet up to the tier's length with all scripts (longer strings with a bounded number of latches); all strings over a 7-letter alphabet with high bytes (0x80, 0x9F, 0xE1, 0xFF, RS, A, a) up to length 4 (5); a filler run of 1..kmax characters in each mode (with and without unlatch) followed by every tail of length <= 2 (3) with all scripts; \
 Base256 fields of length 1..1555 (both sides of every multiple of 250) with explicit and with zero length; macro 05/06 and FNC1 headers. non-trivial = materialised script with a non-ASCII run.",
         "exhaustive": true,
         "scripts_materialised": ctx.counter("scripts_materialised"),
